@@ -138,7 +138,7 @@ def pack(ctx, R, insts, labels, fails):
 
 def algebra(ctx, thorough):
     fails = set()
-    plans = [(1, range(1, 41)), (2, range(1, 121)), (3, range(1, 13))] if not thorough else [(1, range(1, 81)), (2, range(1, 601)), (3, range(1, 121))]
+    plans = [(1, range(1, 41)), (2, range(1, 121)), (3, range(1, 13))] if not thorough else [(1, range(1, 121)), (2, range(1, 1201)), (3, range(1, 241))]
     for R, seeds in plans:
         # the permutation statement is checked on every instance of rank 1-2 and on the C04 check's instances of rank 3
         res = run_tlc('MC_PrismCore', core_cfg(R, list(seeds), perm=(R < 3)), ctx.tmp, seed=ctx.seed, workers=8 if R == 3 else 2, coverage=(R < 3))
@@ -220,7 +220,7 @@ def solved(ctx, thorough, terms_path):
     rng = np.random.default_rng(ctx.seed)
     inits = sorted(g.inits)
     order = rng.permutation(len(inits))
-    want = 260 if thorough else 24
+    want = 700 if thorough else 24
     done = judged = 0
     fails = set()
     for idx in order:
